@@ -1,8 +1,11 @@
 (* C24 -- AsyncRequest delivers each update at most once.
-   Statements only.  Model: Model/AsyncReqModel.v (one step = one atomic access of state_ / one access of obj_, the move
-   of obj_ being two steps: read, then -- after T's move constructor returns -- the source is disengaged (OpResult) or
-   left engaged (std::optional)); any number of threads; any schedule; both OpResult flavours ([kp]).
-   Tie: lockstep under harness/vsched.h on the real class in the C++14 and the C++17 build (props/C24.py). *)
+   Statements only.  Model: Model/AsyncReqModel.v = the code after the repair "fix: AsyncRequest::getUpdate must claim
+   the update before moving it" (one step = one atomic access of state_ / one access of obj_, the move of obj_ being two
+   steps: read, then -- after T's move constructor returns -- the source is disengaged (OpResult) or left engaged
+   (std::optional)); any number of requester, producer AND consumer threads; any schedule; both OpResult flavours ([kp]).
+   Tie: lockstep under harness/vsched.h on the real class in the C++14 and the C++17 build (props/C24.py).
+   History: before the repair getUpdate tested `state_.load() == kReady`, and two concurrent consumers both moved the same
+   obj_ (former theorem C24_refuted; its witness is the regression Example below and the first case of every check run). *)
 From Coq Require Import ZArith List Bool.
 From DV Require Import Base.MachInt Base.Sched Model.AsyncReqModel Proofs.C24Proofs.
 Import ListNotations.
@@ -10,82 +13,60 @@ Local Open Scope Z_scope.
 
 (* The property as the text states it ("with multiple producers and multiple consumers, as the class documentation
    permits"): for every program with unique tags, every schedule, every reachable state: no value is returned by two
-   getUpdate calls, a value-returning getUpdate directly follows the emplacement of that value which directly follows
-   the latest successful request, and every emplacement directly follows a successful request. *)
+   getUpdate calls (counted over the results of all threads), a value-returning getUpdate directly follows the
+   emplacement of that value which directly follows the latest successful request, and every emplacement directly
+   follows a successful request (ghost log [hist]: successful requests, emplacements, value-returning moves, newest first). *)
 Definition C24_full_statement : Prop :=
   forall kp progs s, NoDup (all_tags progs) -> reach step (init kp progs) s ->
     (forall v, delivered v s <= 1) /\
     (forall h1 v h2, hist s = h1 ++ EvGet v :: h2 -> exists h3, h2 = EvEmplace v :: EvReq :: h3) /\
     (forall h1 v h2, hist s = h1 ++ EvEmplace v :: h2 -> exists h3, h2 = EvReq :: h3).
 
-(* It is FALSE of the code as written as soon as two threads call getUpdate concurrently: both pass the
-   `state_.load() == kReady` test and both move the same obj_ -- with detail::OpResult (C++14 builds, kp = false)
-   as well as with std::optional (C++17 builds, kp = true). *)
-Theorem C24_refuted : forall kp,
-  exists s, reach step (init kp [[OReq; OEmplace 7]; [OGet]; [OGet]]) s /\ delivered 7 s = 2.
-Proof. exact refuted_reach. Qed.
-Print Assumptions C24_refuted.
-
-Theorem C24_refutes_full_statement : ~ C24_full_statement.
+Theorem C24_holds : C24_full_statement.
 Proof.
-  intros F. destruct (refuted_reach true) as [s [Re D]].
-  assert (ND : NoDup (all_tags refute_progs)) by (vm_compute; repeat constructor; intros []).
-  destruct (F true refute_progs s ND Re) as [A _]. specialize (A 7). rewrite D in A. apply A. reflexivity.
+  intros kp progs s ND Re. split; [|split].
+  - intros v. exact (each_value_delivered_at_most_once kp progs s v ND Re).
+  - intros h1 v h2. exact (get_only_after_emplace_since_request kp progs s h1 v h2 Re).
+  - intros h1 v h2. exact (emplace_only_when_requested kp progs s h1 v h2 Re).
 Qed.
-Print Assumptions C24_refutes_full_statement.
-
-(* It HOLDS on the complement of that finding's domain: programs in which at most one thread ever calls getUpdate
-   ([single_consumer], a Gallina boolean on the programs) -- any number of requesters and producers, all schedules. *)
-Theorem C24_holds_except : forall kp progs s,
-  single_consumer progs = true -> NoDup (all_tags progs) -> reach step (init kp progs) s ->
-    (forall v, delivered v s <= 1) /\
-    (forall h1 v h2, hist s = h1 ++ EvGet v :: h2 -> exists h3, h2 = EvEmplace v :: EvReq :: h3) /\
-    (forall h1 v h2, hist s = h1 ++ EvEmplace v :: h2 -> exists h3, h2 = EvReq :: h3).
-Proof.
-  intros kp progs s SC ND Re. split; [|split].
-  - intros v. exact (each_value_delivered_at_most_once kp progs s v SC ND Re).
-  - intros h1 v h2. exact (get_only_after_emplace_since_request kp progs s h1 v h2 SC Re).
-  - intros h1 v h2. exact (emplace_only_when_requested kp progs s h1 v h2 SC Re).
-Qed.
-Print Assumptions C24_holds_except.
+Print Assumptions C24_holds.
 
 (* the three parts separately *)
 Theorem C24_each_value_delivered_at_most_once : forall kp progs s v,
-  single_consumer progs = true -> NoDup (all_tags progs) -> reach step (init kp progs) s -> delivered v s <= 1.
+  NoDup (all_tags progs) -> reach step (init kp progs) s -> delivered v s <= 1.
 Proof. exact each_value_delivered_at_most_once. Qed.
 Print Assumptions C24_each_value_delivered_at_most_once.
 
 Theorem C24_get_only_after_emplace_since_request : forall kp progs s h1 v h2,
-  single_consumer progs = true -> reach step (init kp progs) s ->
+  reach step (init kp progs) s ->
   hist s = h1 ++ EvGet v :: h2 -> exists h3, h2 = EvEmplace v :: EvReq :: h3.
 Proof. exact get_only_after_emplace_since_request. Qed.
 Print Assumptions C24_get_only_after_emplace_since_request.
 
 Theorem C24_emplace_only_when_requested : forall kp progs s h1 v h2,
-  single_consumer progs = true -> reach step (init kp progs) s ->
+  reach step (init kp progs) s ->
   hist s = h1 ++ EvEmplace v :: h2 -> exists h3, h2 = EvReq :: h3.
 Proof. exact emplace_only_when_requested. Qed.
 Print Assumptions C24_emplace_only_when_requested.
 
-(* what survives for EVERY program (any number of concurrent consumers): successful emplacements never outnumber
-   successful requests, and a delivered value is one that was emplaced (nothing out of thin air) *)
-Theorem C24_emplace_count_le_requests_any : forall kp progs s,
+(* counting forms: successful emplacements never outnumber successful requests; a delivered value is one that was
+   emplaced (nothing out of thin air) *)
+Theorem C24_emplace_count_le_requests : forall kp progs s,
   reach step (init kp progs) s -> cntEmpAll (hist s) <= cntReq (hist s).
 Proof. exact emplace_count_le_requests. Qed.
-Print Assumptions C24_emplace_count_le_requests_any.
+Print Assumptions C24_emplace_count_le_requests.
 
-Theorem C24_delivered_was_emplaced_any : forall kp progs s v,
+Theorem C24_delivered_was_emplaced : forall kp progs s v,
   reach step (init kp progs) s -> 0 < delivered v s -> 0 < cntEmp v (hist s) /\ In v (all_tags progs).
 Proof. exact delivered_was_emplaced. Qed.
-Print Assumptions C24_delivered_was_emplaced_any.
+Print Assumptions C24_delivered_was_emplaced.
 
-(* single consumer: at most one producer between its CAS and its store, at most one consumer between its load and its
-   store, and the state word identifies who is inside *)
+(* mutual exclusion: at most one thread -- producer or consumer -- is between its CAS and its store, exactly when the
+   state word is kUpdating *)
 Theorem C24_sections_exclusive : forall kp progs s,
-  single_consumer progs = true -> reach step (init kp progs) s ->
-  nE (threads s) + nSR (threads s) <= 1 /\ nMV (threads s) + nSN (threads s) <= 1 /\
-  (0 < nE (threads s) + nSR (threads s) -> word s = kUpdating) /\ (0 < nMV (threads s) + nSN (threads s) -> word s = kReady).
-Proof. exact producer_consumer_exclusion. Qed.
+  reach step (init kp progs) s ->
+  nSec (threads s) <= 1 /\ (0 < nSec (threads s) <-> word s = kUpdating).
+Proof. exact sections_exclusive. Qed.
 Print Assumptions C24_sections_exclusive.
 
 (* every state the executable scheduler visits is reachable, so the theorems apply to the runs compared with the real code *)
@@ -94,14 +75,22 @@ Theorem C24_run_reach : forall fuel kp progs sched,
 Proof. intros. apply run_reach. apply reach_refl. Qed.
 Print Assumptions C24_run_reach.
 
-(* non-vacuity: a 4-thread program in the domain (one consumer, two producers, one extra requester) with unique tags
-   whose run delivers a value *)
+(* regression: the schedule that used to deliver 7 to both consumers (both loads before either move) now lets exactly
+   one consumer win the CAS; the other returns {} -- in both OpResult flavours *)
+Example C24_regression_two_consumers : forall kp,
+  let s := fst (fst (run_ar 20 kp [[OReq; OEmplace 7]; [OGet]; [OGet]] [0; 0; 0; 0; 0; 0; 1; 0; 1; 0; 1; 0; 1; 0; 0])) in
+  delivered 7 s = 1 /\
+  map (fun th => rev (res th)) (threads s) = [[(r_emplace, 1)]; [(r_get, 7)]; [(r_getnone, 0)]].
+Proof. intros kp. destruct (regression_run kp) as (A & B & _). split; [exact A | exact B]. Qed.
+
+(* non-vacuity: a 4-thread program (two consumers, two producers, requests from three threads) with unique tags whose
+   run delivers a value *)
 Example C24_nonvacuous :
-  let progs := [[OReq; OGet; OReq; OGet; OGet]; [OUpdReq; OEmplace 5; OEmplace 6]; [OEmplace 8; OEmplace 9]; [OReq; OReq]] in
-  single_consumer progs = true /\ NoDup (all_tags progs) /\
+  let progs := [[OReq; OGet; OReq; OGet; OGet]; [OUpdReq; OEmplace 5; OEmplace 6]; [OEmplace 8; OGet; OEmplace 9]; [OReq; OReq]] in
+  NoDup (all_tags progs) /\
   let '(s, _, st) := run_ar 60 true progs [0;0;1;1;1;1;1;2;2;0;0;0;0;0;0;3;3;3;1;0;0;0;0;0;0;0;0;0;0;0;0;0;0;0;0;0;0;0;0;0] in
   st = SDone /\ delivered 5 s = 1 /\ 2 <= Z.of_nat (length (hist s)).
 Proof.
-  split; [reflexivity|]. split; [vm_compute; repeat constructor; cbn; intuition discriminate|].
+  split; [vm_compute; repeat constructor; cbn; intuition discriminate|].
   vm_compute. repeat split; try reflexivity. discriminate.
 Qed.
